@@ -307,6 +307,18 @@ class Model:
     def n(self, name):
         return self.sizes()[name]
 
+    def set_n(self, name, value):
+        """Overwrite a size field of mjModel (e.g. narena before mj_makeData); the caller keeps it consistent."""
+        f = self.L.lib.vf_model_size_addr
+        f.restype = C.c_void_p
+        f.argtypes = [C.c_void_p, C.c_char_p, C.POINTER(C.c_int)]
+        nb = C.c_int()
+        addr = f(self.ptr, name.encode(), C.byref(nb))
+        if not addr:
+            raise KeyError(name)
+        (C.c_int64 if nb.value == 8 else C.c_int32).from_address(addr).value = int(value)
+        self._sizes = None
+
     def fields(self):
         if self._fields is None:
             arr = (VFField * 1024)()
